@@ -81,7 +81,8 @@ Lemma rev_seg_nth j : (j < nsegs)%nat ->
   nth j (pv_segs p') dseg = flip_seg (nth (nsegs - 1 - j) (pv_segs p) dseg).
 Proof.
   intros H. unfold rev_prov. cbn [pv_segs]. rewrite rev_nth by now rewrite map_length.
-  rewrite map_length. change dseg with (flip_seg dseg) at 1. rewrite map_nth. f_equal. f_equal. lia.
+  rewrite map_length. rewrite (nth_indep _ dseg (flip_seg dseg)) by (rewrite map_length; lia).
+  rewrite map_nth. f_equal. f_equal. lia.
 Qed.
 
 Lemma rev_pos k : (k < n)%nat ->
